@@ -14,7 +14,7 @@ import (
 func init() {
 	register("C09", PropCheck{
 		Title:      "The symbol cache enforces its limits and accounts for every byte",
-		Explain:    "Inductive step of the accounting invariant, decided per method of cache.Cache: (R1) no conversion to an integer type narrower than 32 bits is applied to a length that then takes part in a comparison; (R2) every success path of Add and Update passes the per-symbol limit comparison (len(value) against the limit given to Add / recorded in Sizes[key]) on its 'within limit' edge or the 'limit is 0' edge, and the capacity oracle's 'fits' edge (or the empty-value edge), and the oracle compares CacheUseSize+len(value) with CacheSize; (R3) every success path of Add passes the 'key not defined in any frame' edge of the frame lookup (directly, or as the success edge of an error-returning helper whose own success returns all lie behind it); (R4) every store to CacheUseSize is 0, or self +/- a length of a value stored to / loaded from / ranged over a frame map (or the oracle's result for such a value); every method that changes frame contents or drops frames adjusts CacheUseSize; the frame list only grows by appending a freshly made map and only shrinks by re-slicing to a shorter prefix; (R5) on every path to an error return of Add/Update each write to Cache state is followed by a restoring write (old map value / inverse adjustment with the same operand) - a rejected operation leaves the cache unchanged; (R6) Pop deletes the Sizes entry of every key of the frame it removes; (R7) at every call of Add in package vm (the LOAD handler today) the limit argument is a size operand decoded from the program, and its conversion to the cache's limit type is proved lossless by a dominating range check (a declared limit must not wrap to 0 = 'no limit', and a symbol must not be re-added with a limit taken from anywhere else); (R8) an entry of Sizes is deleted only together with its symbol: the key of every delete(Sizes, k) ranges over a frame map that is being dropped, never over Sizes itself (added after seeded change C09-H, a clean-up loop in Reset that deleted the limits of the symbols that stay). (R9) the persister empties the session's cache object but never replaces it: every store to Persister.Memory takes a parameter or a cache that went through WithCacheSize (added after seeded change C09-J). (R10) every Cache.WithCacheSize call in package engine lies behind the CacheSize > 0 edge (added after seeded change C09-L).",
+		Explain:    "Inductive step of the accounting invariant, decided per method of cache.Cache: (R1) no conversion to an integer type narrower than 32 bits is applied to a length that then takes part in a comparison; (R2) every success path of Add and Update passes the per-symbol limit comparison (len(value) against the limit given to Add / recorded in Sizes[key]) on its 'within limit' edge or the 'limit is 0' edge, and the capacity oracle's 'fits' edge (or the empty-value edge), and the oracle compares CacheUseSize+len(value) with CacheSize; (R3) every success path of Add passes the 'key not defined in any frame' edge of the frame lookup (directly, or as the success edge of an error-returning helper whose own success returns all lie behind it); (R4) every store to CacheUseSize is 0, or self +/- a length of a value stored to / loaded from / ranged over a frame map (or the oracle's result for such a value); every method that changes frame contents or drops frames adjusts CacheUseSize; the frame list only grows by appending a freshly made map and only shrinks by re-slicing to a shorter prefix; (R5) on every path to an error return of Add/Update each write to Cache state is followed by a restoring write (old map value / inverse adjustment with the same operand) - a rejected operation leaves the cache unchanged; (R6) Pop deletes the Sizes entry of every key of the frame it removes; (R7) at every call of Add in package vm (the LOAD handler today) the limit argument is a size operand decoded from the program, and its conversion to the cache's limit type is proved lossless by a dominating range check (a declared limit must not wrap to 0 = 'no limit', and a symbol must not be re-added with a limit taken from anywhere else); (R8) an entry of Sizes is deleted only together with its symbol: the key of every delete(Sizes, k) ranges over a frame map that is being dropped, never over Sizes itself (added after seeded change C09-H, a clean-up loop in Reset that deleted the limits of the symbols that stay). (R9) the persister empties the session's cache object but never replaces it: every store to Persister.Memory takes a parameter or a cache that went through WithCacheSize (added after seeded change C09-J). (R10) every Cache.WithCacheSize call in package engine lies behind the CacheSize > 0 edge (added after seeded change C09-L). (R11) the frame lookup (the function whose integer result Add compares with -1, also when the test sits in a helper of Add) and the package functions it calls read no field of Cache other than the frame list: whether a symbol is defined is never answered from the accounting (added after seeded change C09-M, an early 'nothing stored' return on CacheUseSize == 0 that hides symbols with empty values).",
 		NotDecided: "the numeric invariant CacheUseSize = sum of lengths over whole histories (R4/R5 are its inductive step); lengths of 4 GiB and more (uint32 accounting); Reset leaving Sizes entries of dropped frames (reported as information only).",
 		Assume:     []string{"value lengths are below 2^32"},
 		Run:        runC09,
